@@ -77,4 +77,24 @@ Proof.
   - change (eof_received (upd_nak _ (set_r_naks _ (upd_nak _ s2)))) with (is_some (r_fsize s1)). rewrite S2. exact He.
 Qed.
 
+(* the delayed check: when the delay of the first entry [a, b) has elapsed (and not yet that of the
+   next one), exactly what is STILL missing inside [a, min b filesize) is queued - nothing if the gap
+   has been filled meanwhile - plus the metadata marker while the metadata is missing; the entry is
+   consumed *)
+Theorem delayed_gap_requested_if_it_persists now c a b rest (s : rstate) :
+  r_delayed s = (c, a, b) :: rest -> snd (c_timeout_occurred now c) = true ->
+  match rest with [] => True | (c2, _, _) :: _ => snd (c_timeout_occurred now c2) = false end ->
+  let clip e := match r_fsize s with Some f => N.min e f | None => e end in
+  let s' := ht_delayed now s in
+  r_naks s' = (r_naks s ++ (if is_some (r_meta s) then [] else [(0, 0)])) ++ (gaps (r_segs s) a (clip b) ++ []) /\
+  length (r_delayed s') = length rest.
+Proof.
+  intros Hd Ho Hr. cbn zeta. unfold ht_delayed. rewrite Hd. cbn [expire_delayed].
+  destruct (c_timeout_occurred now c) as [c' occ]. cbn [snd] in Ho. subst occ.
+  destruct rest as [|[[c2 a2] b2] t].
+  - cbn. auto.
+  - cbn [expire_delayed]. destruct (c_timeout_occurred now c2) as [c2' occ2]. cbn [snd] in Hr. subst occ2.
+    cbn. auto.
+Qed.
+
 End ImmediateP.
